@@ -3,6 +3,22 @@
 //@ enumvals parser/src/keys/mod.rs OsCode oscode_vals
 //@ enumvals keyberon/src/key_code.rs KeyCode keycode_vals
 
+//@ strtable parser/src/keys/mod.rs str_to_oscode parser/src/keys/mod.rs OsCode nop[0-9] nop_codes
+
+//@ raw
+// the reserved no-op key NAMES (nop0..nop9, read from the match arms of str_to_oscode on this run)
+// denote exactly the ten codes of the range the output filter never sends to the OS
+spec fn all_in_range(s: Seq<int>, i: int, lo: int, hi: int) -> bool
+    decreases s.len() - i,
+{
+    if i < 0 || i >= s.len() { true } else { lo <= s[i] <= hi && all_in_range(s, i + 1, lo, hi) }
+}
+proof fn e2_nop_names_denote_the_ignored_range()
+    ensures nop_codes().len() == 10, all_in_range(nop_codes(), 0, 0x2a4, 0x2ad),
+{
+    assert(nop_codes().len() == 10 && all_in_range(nop_codes(), 0, 0x2a4, 0x2ad)) by(compute_only);
+}
+
 //@ raw
 // E1: the two discriminant lists, read from the two enum bodies on this run, are the same
 // list, and that list is exactly 0, 1, 2, ..., 767 (so: no gaps, no duplicates, same order).
